@@ -24,6 +24,10 @@ Tie / fault enumeration:
      parsed" deliveries are counted in the evidence, not reported.
  (C) command line: `decode`, `decode -m [--continue-on-error]`, `info` on damaged files: no traceback, a
      message on stderr (the exit status is 0 by design of `__init__.main`).
+ (D) histories: sessions of operations (process / process without signature search / scan; strict or lenient, full
+     or metadata-only, with and without continue-on-error and filter; valid, damaged, truncated input; mixed
+     editions and section-2 presence) in random order on ONE Decoder object; every operation against the same
+     operation on a fresh Decoder, the oracle and the (stateless) model.  Theorems: Props/C12History.lean.
 """
 import contextlib
 import io
@@ -51,7 +55,10 @@ META = dict(
          'regardless of the flag (why F9 mattered); at message level bytes that follow never influence the decoding and no proper '
          'prefix of a fully consumed message decodes (from the C04 frame theorems and the data-level frame lemma of Props/C12.lean); '
          'an expected-value mismatch (7777) is the library error. Plus fault enumeration against the implementation: every '
-         'truncation point, every subset of damaged messages x 5 damage kinds x modes, and the command line.',
+         'truncation point, every subset of damaged messages x 5 damage kinds x modes, and the command line. The Decoder object is '
+         'modelled as a state machine (its table of section configurations as a memo table): after ANY history of operations every '
+         'operation gives the stateless model\'s result (C12_history_*); checked on the implementation by random sessions of '
+         'strict / lenient / metadata-only / failing decodes and scans on ONE Decoder object against a fresh object, the oracle and the model.',
     technique='Lean 4 theorems (induction over the stream, frame lemma) + checked model/implementation correspondence under fault enumeration',
     note='Which length faults are *detected* is not a theorem (BUFR has no checksum): the check counts damaged-but-still-parsed '
          'deliveries. In the one-byte skip branch the scan searches the signature again inside the damaged message; the theorem '
@@ -113,7 +120,22 @@ def locate_items(s, items):
 
 
 class SCase(object):
-    __slots__ = ('s', 'offs', 'orig', 'cur', 'dmg', 'info_only', 'cont', 'idx')
+    """one scan of one stream.  `ignore`: ignore_value_expectation=True; `filt`: None or (filter_expr, model
+    clauses); `matched`: None or, per message, whether the ORIGINAL message satisfies the filter"""
+    __slots__ = ('s', 'offs', 'orig', 'cur', 'dmg', 'info_only', 'cont', 'idx', 'ignore', 'filt', 'matched')
+
+    def __init__(self):
+        self.ignore, self.filt, self.matched = False, None, None
+
+
+def scan_fresh(c, limit):
+    """the scan of case c on a fresh Decoder"""
+    return S.impl_scan(c.s, info_only=c.info_only, continue_on_error=c.cont, filter_expr=c.filt[0] if c.filt else None,
+                       ignore_expect=c.ignore, limit=limit)
+
+
+def scan_model_req(c):
+    return S.scan_req(c.s, c.info_only, c.cont, model_filter=c.filt[1] if c.filt else None, ignore_expect=c.ignore)
 
 
 def oracle(c, items, out):
@@ -123,6 +145,12 @@ def oracle(c, items, out):
         return 'a non-library exception left the generator (after %d items)' % len(items), counters
     if out == 'limit':
         return 'the generator yields more items than the stream has messages', counters
+    if c.ignore and any(d is not None and d[0].startswith(TOLERANT) for d in c.dmg):
+        # ignore_value_expectation gives up the check that a message ends in `7777`: a message whose section length
+        # was raised is then "decoded" beyond its end and swallows the start of the next one.  That is what the
+        # option means, not a loss of isolation; such scans are compared with the model and the fresh Decoder only.
+        counters.append('lenient-scan-with-length-fault:model-only')
+        return None, counters
     ioffs = locate_items(c.s, items)
     by_off = {o: i for i, o in enumerate(c.offs)}
     delivered = {}
@@ -135,20 +163,42 @@ def oracle(c, items, out):
         if c.dmg[i] is None:
             if it != c.cur[i]:
                 return 'undamaged message %d delivered with different bytes (%d instead of %d)' % (i, len(it), len(c.cur[i])), counters
+            if c.matched is not None and not c.matched[i]:
+                return 'undamaged message %d does not satisfy the filter but was delivered' % i, counters
         else:
             kind = c.dmg[i][0]
             if kind.startswith(TOLERANT) or c.info_only:
                 counters.append('damaged-still-parsed:%s:%s' % (kind, 'info' if c.info_only else 'full'))
+            elif c.ignore and kind == 'stop':
+                counters.append('damaged-stop-delivered-by-lenient-decode')
             else:
                 return 'message %d damaged by %s was delivered by a full decode' % (i, kind), counters
     n = len(c.cur)
+    want = [i for i in range(n) if c.dmg[i] is None and (c.matched is None or c.matched[i])]
     if c.cont:
         if out != 'done':
             return 'continue-on-error scan ended with %s' % out, counters
-        missing = [i for i in range(n) if c.dmg[i] is None and i not in delivered]
+        missing = [i for i in want if i not in delivered]
         if missing:
             return 'undamaged message(s) %s not delivered with continue-on-error' % missing, counters
         return None, counters
+    if c.matched is not None:
+        # with a filter an unmatched message (damaged or not) is passed over silently, so "the first message that is
+        # not delivered" need not be the failing one: the failing message is some damaged, undelivered one after the
+        # last delivery, and everything wanted before it has been delivered
+        if out == 'done':
+            missing = [i for i in want if i not in delivered]
+            if missing:
+                return 'undamaged message(s) %s not delivered although the scan ended normally' % missing, counters
+            return None, counters
+        if not core.is_lib(out):
+            return 'the scan ended with %s instead of a PyBufrKitError' % out, counters
+        last = max(delivered) if delivered else -1
+        for f in range(last + 1, n):
+            if c.dmg[f] is not None and f not in delivered and all(i in delivered for i in want if i < f):
+                return None, counters
+        return 'scan without continue-on-error ended with %s but no damaged message explains it (delivered %s)' % (
+            out, sorted(delivered)), counters
     # stop at the first error
     first = next((i for i in range(n) if i not in delivered), None)
     if first is None:
@@ -181,6 +231,7 @@ def single(c, i):
     c2.dmg = [c.dmg[i]]
     c2.orig = [c.orig[i]] if c.orig else None
     c2.info_only, c2.cont, c2.idx = c.info_only, c.cont, c.idx
+    c2.ignore, c2.filt, c2.matched = c.ignore, c.filt, [c.matched[i]] if c.matched is not None else None
     return c2
 
 
@@ -191,7 +242,7 @@ def shrink_and_sign(c, why):
         if d is None:
             continue
         c2 = single(c, i)
-        items, out = S.impl_scan(c2.s, info_only=c2.info_only, continue_on_error=c2.cont, limit=5)
+        items, out = scan_fresh(c2, 5)
         w2, _ = oracle(c2, items, out)
         if w2 and w2.split(' (')[0][:60] == what:
             c, why = c2, w2
@@ -203,12 +254,18 @@ def signature(c, why):
     kinds = sorted(set(d[0] for d in c.dmg if d))
     sig = {'stage': 'oracle', 'what': why.split(' (')[0][:60], 'kinds': kinds,
            'fault_classes': sorted(set(fault_class(k) for k in kinds)),
-           'info_only': c.info_only, 'continue': c.cont,
+           'info_only': c.info_only, 'continue': c.cont, 'ignore_expect': c.ignore, 'filter': c.filt is not None,
            'inner_signature_in_damaged': any(d is not None and S.SIG in b[1:] for d, b in zip(c.dmg, c.cur))}
-    if why.startswith('a non-library exception'):
-        items, out = S.impl_scan(c.s, info_only=c.info_only, continue_on_error=c.cont, limit=len(c.cur) + 4)
-        if out == 'err:other':
-            sig.update(S.LAST_EXC)
+    items, out = scan_fresh(c, len(c.cur) + 4)
+    # a length-damaged message that still "parses" and is delivered with MORE bytes than its (intact) declared total
+    # length: nothing in Decoder.process compares the two, and the excess swallows the following messages
+    by_off = {o: i for i, o in enumerate(c.offs)}
+    sig['overlong_damaged_delivery'] = any(
+        o in by_off and c.dmg[by_off[o]] is not None and fault_class(c.dmg[by_off[o]][0]) == 'length'
+        and len(it) > len(c.cur[by_off[o]])
+        for it, o in zip(items, locate_items(c.s, items)))
+    if why.startswith('a non-library exception') and out == 'err:other':
+        sig.update(S.LAST_EXC)
     return sig
 
 
@@ -238,7 +295,8 @@ def build_scase(rng, sel, variants, subset, idx):
 def replay_obj(c, why):
     return {'stream_hex': c.s.hex(), 'pieces': [[o, len(b)] for o, b in zip(c.offs, c.cur)],
             'damage': [list(d) if d else None for d in c.dmg], 'info_only': c.info_only,
-            'continue_on_error': c.cont, 'case_index': c.idx, 'why': why}
+            'continue_on_error': c.cont, 'ignore_value_expectation': c.ignore,
+            'filter': list(c.filt) if c.filt else None, 'matched': c.matched, 'case_index': c.idx, 'why': why}
 
 
 
@@ -260,9 +318,9 @@ def run_streams(ctx, drv, treq, rng, nstreams):
     chunk = 400
     for k0 in range(0, len(cases), chunk):
         part = cases[k0:k0 + chunk]
-        res = drv.batch([treq] + [S.scan_req(c.s, c.info_only, c.cont) for c in part])[1:]
+        res = drv.batch([treq] + [scan_model_req(c) for c in part])[1:]
         for c, r in zip(part, res):
-            items, out = S.impl_scan(c.s, info_only=c.info_only, continue_on_error=c.cont, limit=len(c.cur) + 4)
+            items, out = scan_fresh(c, len(c.cur) + 4)
             nd = sum(1 for d in c.dmg if d)
             ctx.case({'stream': c.s.hex()[:48], 'damage': [d[0] if d else None for d in c.dmg], 'info_only': c.info_only,
                       'continue': c.cont}, nontrivial=nd >= 1 and nd < len(c.dmg), sample=len(ctx.samples) < 4 and nd >= 1)
@@ -273,24 +331,31 @@ def run_streams(ctx, drv, treq, rng, nstreams):
                 if d:
                     ctx.count('damage:' + d[0])
             ctx.count('outcome:' + out)
-            why, counters = oracle(c, items, out)
-            for k in counters:
-                ctx.count(k)
-            if why:
-                if ctx.violations + len(ctx.known_hits) > 60:
-                    ctx.count('further-failing-streams')
-                    continue
-                c2, w2, sig = shrink_and_sign(c, why)
-                ctx.violation('oracle: ' + w2 + (' [%s in %s]' % (sig['exc'], sig['where']) if 'exc' in sig else ''),
-                              replay_obj(c2, w2), signature=sig)
-                continue
-            mi = S.model_items(c.s, r)
-            if r['outcome'] != out or mi != items:
-                w = 'model scan gives %s %s, implementation %s %s' % (r['outcome'], [(o, n) for o, n, _ in r['items']][:8], out,
-                                                                      [len(x) for x in items[:8]])
-                ctx.violation('correspondence: ' + w, replay_obj(c, w),
-                              signature={'stage': 'correspondence', 'kinds': sorted(set(d[0] for d in c.dmg if d)),
-                                         'info_only': c.info_only, 'continue': c.cont, 'impl': out, 'model': r['outcome']})
+            judge_scan(ctx, c, items, out, r)
+    return pool, variants
+
+
+def judge_scan(ctx, c, items, out, r):
+    """oracle on what the implementation delivered for case c, then implementation vs model response r"""
+    why, counters = oracle(c, items, out)
+    for k in counters:
+        ctx.count(k)
+    if why:
+        if ctx.violations + len(ctx.known_hits) > 60:
+            ctx.count('further-failing-streams')
+            return
+        c2, w2, sig = shrink_and_sign(c, why)
+        ctx.violation('oracle: ' + w2 + (' [%s in %s]' % (sig['exc'], sig['where']) if 'exc' in sig else ''),
+                      replay_obj(c2, w2), signature=sig)
+        return
+    mi = S.model_items(c.s, r)
+    if r['outcome'] != out or mi != items:
+        w = 'model scan gives %s %s, implementation %s %s' % (r['outcome'], [(o, n) for o, n, _ in r['items']][:8], out,
+                                                              [len(x) for x in items[:8]])
+        ctx.violation('correspondence: ' + w, replay_obj(c, w),
+                      signature={'stage': 'correspondence', 'kinds': sorted(set(d[0] for d in c.dmg if d)),
+                                 'info_only': c.info_only, 'continue': c.cont, 'ignore_expect': c.ignore,
+                                 'filter': c.filt is not None, 'impl': out, 'model': r['outcome']})
 
 
 # ---------------------------------------------------------------------------------------------
@@ -344,11 +409,19 @@ def truncation_message(treq, b, label, seed, points=None):
                              {'message_hex': b.hex(), 'cut': k, 'info_only': io_, 'label': label},
                              {'stage': 'truncation', 'what': 'model differs', 'info_only': io_}))
     # trailing bytes
-    fam, m0 = decode_family(dec, b, False)
+    fam, m0 = decode_family(Decoder(), b, False)
     if fam != 'ok':
         return {'machinery': 'valid message does not decode: %s' % label}
     v0 = values_of(m0)
     ntrail = 0
+    # `dec` has by now decoded every prefix, full and metadata-only, and failed on nearly all of them
+    fam, m1 = decode_family(dec, b, False)
+    if fam != 'ok' or m1.serialized_bytes != b or values_of(m1) != v0:
+        viol.append(('history: after decoding every prefix of a message (full and metadata-only) on one Decoder, the complete '
+                     'message gives %s on it; on a fresh Decoder it decodes' % (fam if fam != 'ok' else 'a different result'),
+                     {'message_hex': b.hex(), 'label': label, 'history': 'all prefixes, full and info-only alternating'},
+                     {'stage': 'history', 'op': 'truncation', 'shared': fam, 'fresh': 'ok'}))
+        return {'fams': fams, 'violations': viol[:5], 'traces': 2 * len(ks), 'trailing': 0}
     for t in (b'\0', b'7777', b'BUFR', b'BUF', S.noise(rng, 9), b, b[:len(b) // 2], b'\xff' * 5):
         fam, m1 = decode_family(dec, b + t, False)
         ntrail += 1
@@ -419,6 +492,342 @@ def run_truncation(ctx, drv, treq, rng, nmsgs, ncorpus):
 
 
 # ---------------------------------------------------------------------------------------------
+# (D) histories on ONE Decoder object
+#
+# The property quantifies over streams and damage, not over the state of the Decoder object that reads them, and a
+# user keeps one Decoder for many calls.  A session is a list of operations run in order on one Decoder:
+#   process        Decoder.process(bytes, info_only=?, ignore_value_expectation=?) on a valid message (of any edition,
+#                  with or without section 2), a damaged one (every damage kind of (B)), a truncated one, one with
+#                  trailing bytes
+#   process-nosig  the same with start_signature=None on bytes whose first four octets are not `BUFR`
+#   scan           generate_bufr_message(decoder, stream, info_only=?, continue_on_error=?, filter_expr=?,
+#                  ignore_value_expectation=?) on a stream of 1..4 messages with a random damaged subset
+# Every operation's observation (outcome / error family, the bytes of every delivered message and a digest of
+# everything decoded: all section parameters, all values, all descriptors) is compared with
+#   1. the same operation on a fresh Decoder                (stage `history`: the result depends on what came before),
+#   2. the oracle of (B) resp. the per-message oracle below (stage `oracle`),
+#   3. the model (`scan` of Msg/Stream.lean, which has no decoder state at all) (stage `correspondence`).
+# 2. and 3. also see state shared by all Decoder objects of the process (1. cannot: the fresh one would be polluted too).
+class HOp(object):
+    __slots__ = ('kind', 'data', 'info_only', 'cont', 'ignore', 'case', 'variant', 'orig')
+
+    def key(self):
+        return (self.kind, self.data, self.info_only, self.cont, self.ignore, self.case.filt[0] if self.case is not None and self.case.filt else None)
+
+    def flags(self):
+        return '%s:%s:%s' % (self.kind, 'info' if self.info_only else 'full', 'lenient' if self.ignore else 'strict')
+
+    def to_json(self):
+        d = {'kind': self.kind, 'hex': self.data.hex(), 'info_only': self.info_only, 'continue_on_error': self.cont,
+             'ignore_value_expectation': self.ignore, 'variant': list(self.variant) if self.variant else None}
+        if self.orig is not None:
+            d['orig_hex'] = self.orig.hex()
+        if self.case is not None:
+            d['scan'] = replay_obj(self.case, '')
+        return d
+
+    @staticmethod
+    def from_json(d):
+        op = HOp()
+        op.kind, op.data, op.info_only, op.cont, op.ignore = (d['kind'], bytes.fromhex(d['hex']), d['info_only'],
+                                                              d['continue_on_error'], d['ignore_value_expectation'])
+        op.variant = tuple(d['variant']) if d.get('variant') else None
+        op.orig = bytes.fromhex(d['orig_hex']) if 'orig_hex' in d else None
+        op.case = scase_from_replay(d['scan']) if 'scan' in d else None
+        return op
+
+
+def scase_from_replay(rep):
+    c = SCase()
+    c.s = bytes.fromhex(rep['stream_hex'])
+    c.offs = [o for o, _ in rep['pieces']]
+    c.cur = [c.s[o:o + n] for o, n in rep['pieces']]
+    c.orig = None
+    c.dmg = [tuple(d) if d else None for d in rep['damage']]
+    c.info_only, c.cont, c.idx = rep['info_only'], rep['continue_on_error'], rep.get('case_index', 0)
+    c.ignore = bool(rep.get('ignore_value_expectation', False))
+    c.filt = tuple(rep['filter']) if rep.get('filter') else None
+    c.matched = rep.get('matched')
+    return c
+
+
+def digest(m):
+    """everything a decode delivers besides the bytes: all section parameters, values and descriptors"""
+    import hashlib
+    h = []
+    for sec in m.sections:
+        for p in sec:
+            if p.type == 'template_data':
+                td = p.value
+                h.append(repr((td.decoded_values_all_subsets, [[str(d) for d in ds] for ds in td.decoded_descriptors_all_subsets])))
+            else:
+                h.append(repr((p.name, p.value)))
+    return hashlib.sha1('\n'.join(h).encode('utf-8', 'replace')).hexdigest()[:12]
+
+
+class Obs(object):
+    """observation of one operation: outcome ('ok' / 'done' / error family), [(bytes, digest)] delivered, exception detail"""
+    __slots__ = ('out', 'items', 'exc')
+
+    def same(self, other):
+        return self.out == other.out and self.items == other.items
+
+    def brief(self):
+        return '%s %s' % (self.out, [len(b) for b, _ in self.items])
+
+
+def run_op(dec, op):
+    from pybufrkit.decoder import generate_bufr_message
+    o = Obs()
+    o.items, o.exc = [], None
+    err = io.StringIO()
+    try:
+        with contextlib.redirect_stderr(err):
+            if op.kind == 'scan':
+                c = op.case
+                gen = generate_bufr_message(dec, op.data, info_only=op.info_only, continue_on_error=op.cont,
+                                            filter_expr=c.filt[0] if c.filt else None, wire_template_data=False,
+                                            ignore_value_expectation=op.ignore)
+                limit = len(c.cur) + 4
+                o.out = 'done'
+                for m in itertools.islice(gen, limit):
+                    o.items.append((m.serialized_bytes, digest(m)))
+                if len(o.items) >= limit:
+                    o.out = 'limit'
+            else:
+                kw = {'start_signature': None} if op.kind == 'process-nosig' else {}
+                m = dec.process(op.data, info_only=op.info_only, ignore_value_expectation=op.ignore,
+                                wire_template_data=False, **kw)
+                o.out = 'ok'
+                o.items.append((m.serialized_bytes, digest(m)))
+    except Exception as e:  # noqa
+        o.out = core.err_tag(e)
+        o.exc = S.exc_detail(e)
+    return o
+
+
+def gen_scan_op(rng, sel, variants, idx):
+    k = rng.randint(1, min(4, len(sel) + 1))
+    msgs = [rng.choice(sel) for _ in range(k)]
+    subset = set(i for i in range(k) if rng.random() < 0.4)
+    c = build_scase(rng, msgs, variants, subset, idx)
+    c.info_only = rng.random() < 0.3
+    c.cont = rng.random() < 0.6
+    c.ignore = rng.random() < 0.25
+    if rng.random() < 0.25:
+        expr, model, pred = S.make_filter(rng, msgs)
+        c.filt = (expr, model)
+        c.matched = [bool(pred(m.meta())) for m in msgs]
+    op = HOp()
+    op.kind, op.data, op.info_only, op.cont, op.ignore, op.case, op.variant, op.orig = 'scan', c.s, c.info_only, c.cont, c.ignore, c, None, None
+    return op
+
+
+def gen_process_op(rng, sel, variants):
+    m = rng.choice(sel)
+    op = HOp()
+    op.kind, op.cont, op.case, op.orig = 'process', False, None, m.b
+    op.info_only = rng.random() < 0.3
+    op.ignore = rng.random() < 0.3
+    r = rng.random()
+    if r < 0.35:
+        op.variant, op.data = None, m.b
+    elif r < 0.7:
+        kind, detail, b = rng.choice(variants[id(m)])
+        op.variant, op.data = (kind, detail), b
+    elif r < 0.82:
+        k = rng.choice([rng.randrange(len(m.b)), len(m.b) - rng.randint(1, 5)])
+        op.variant, op.data = ('trunc', k), m.b[:k]
+    elif r < 0.9:
+        t = rng.choice([b'\0', b'7777', b'BUFR', S.noise(rng, 7), m.b[:20]])
+        op.variant, op.data = ('trail', len(t)), m.b + t
+    else:
+        op.kind = 'process-nosig'
+        head = rng.choice([b'BUFS', b'\0\0\0\0', b'7777', b'bufr', bytes(rng.randrange(256) for _ in range(4))])
+        if head == S.SIG:
+            head = b'BUFQ'
+        op.variant, op.data = ('start', head.hex()), head + m.b[4:]
+    return op
+
+
+def process_oracle(op, o):
+    """the property for ONE message given to Decoder.process -> violation text or None"""
+    v = op.variant
+    full = not op.info_only
+    if o.out == 'err:other':
+        return 'a non-library exception left the generator (here: Decoder.process on one message)'
+    if v is None or v[0] == 'trail':
+        want = op.orig if full else op.orig[:-4]
+        if o.out != 'ok':
+            return 'a valid message does not decode (%s)' % o.out
+        if o.items[0][0] != want:
+            return 'a valid message is delivered with different bytes (%d instead of %d)' % (len(o.items[0][0]), len(want))
+        return None
+    kind = v[0]
+    if kind == 'trunc':
+        if full and o.out == 'ok':
+            return 'a proper prefix of a valid message decodes successfully'
+        return None
+    if kind == 'start':
+        if o.out == 'ok' and not op.ignore:
+            return 'a message whose start signature is overwritten decodes with start_signature=None'
+        return None
+    if kind == 'stop':
+        if o.out == 'ok' and full and not op.ignore:
+            return 'message damaged by stop was delivered by a full decode'
+        return None
+    if kind.startswith('undef'):
+        if o.out == 'ok' and full:
+            return 'message damaged by %s was delivered by a full decode' % kind
+        return None
+    return None         # length faults: BUFR has no checksum
+
+
+def process_signature(op, o, why):
+    kind = op.variant[0] if op.variant else 'none'
+    damaged = kind in ('stop', 'undef-elem', 'undef-seq', 'len-1', 'len+')
+    sig = {'stage': 'oracle', 'what': why.split(' (')[0][:60], 'kinds': [kind] if damaged else [],
+           'fault_classes': [fault_class(kind)] if damaged else [], 'info_only': op.info_only, 'continue': False,
+           'ignore_expect': op.ignore, 'filter': False, 'op': op.kind, 'variant': kind,
+           'inner_signature_in_damaged': damaged and S.SIG in op.data[1:]}
+    if o.exc and o.out == 'err:other':
+        sig.update(o.exc)
+    return sig
+
+
+def model_of_process(r):
+    """the model's `scan` of the bytes of one process operation -> ('ok', consumed) | (family, None)"""
+    if r['items']:
+        return 'ok', r['items'][0][2]
+    return ('err:lib' if r['outcome'] == 'done' else r['outcome']), None
+
+
+def shrink_history(ops, j, fresh):
+    """drop operations before ops[j] as long as ops[j] on the shared Decoder still differs from the fresh run"""
+    from pybufrkit.decoder import Decoder
+    hist = list(ops[:j])
+
+    def differs(h):
+        dec = Decoder()
+        for op in h:
+            run_op(dec, op)
+        return not run_op(dec, ops[j]).same(fresh)
+    changed = True
+    while changed and hist:
+        changed = False
+        for i in range(len(hist) - 1, -1, -1):
+            h2 = hist[:i] + hist[i + 1:]
+            if differs(h2):
+                hist = h2
+                changed = True
+    return hist
+
+
+def history_replay(hist, op, shared, fresh, why):
+    return {'history': [h.to_json() for h in hist], 'probe': op.to_json(), 'shared': shared.brief(), 'fresh': fresh.brief(),
+            'why': why}
+
+
+def run_histories(ctx, drv, treq, rng, pool, variants, nsessions):
+    from pybufrkit.decoder import Decoder
+    fresh_memo = {}
+    judged = set()
+    sessions = []
+    nscan = 0
+    for si in range(nsessions):
+        best = None
+        for _ in range(3):      # prefer sessions that mix editions and section-2 presence
+            sel = [rng.choice(pool) for _ in range(rng.randint(2, 4))]
+            score = len(set((m.edition, m.sec2 is not None) for m in sel))
+            if best is None or score > best[0]:
+                best = (score, sel)
+        sel = best[1]
+        ops = []
+        for j in range(rng.randint(5, 12)):
+            if rng.random() < 0.45:
+                ops.append(gen_scan_op(rng, sel, variants, nscan))
+                nscan += 1
+            else:
+                ops.append(gen_process_op(rng, sel, variants))
+        sessions.append((sel, ops))
+    # the model's answer for every distinct operation that it can express
+    reqs, rkeys = [treq], []
+    seen = set()
+    for sel, ops in sessions:
+        for op in ops:
+            k = op.key()
+            if k in seen or op.kind == 'process-nosig':
+                continue
+            seen.add(k)
+            rkeys.append(k)
+            reqs.append(scan_model_req(op.case) if op.kind == 'scan' else S.scan_req(op.data, op.info_only, False, None, op.ignore))
+    model = dict(zip(rkeys, drv.batch(reqs)[1:]))
+    for si, (sel, ops) in enumerate(sessions):
+        shared = Decoder()
+        ctx.count('history:sessions')
+        ctx.count('history:editions-in-session:%d' % len(set(m.edition for m in sel)))
+        ctx.count('history:section2-mixed' if len(set(m.sec2 is not None for m in sel)) == 2 else 'history:section2-uniform')
+        prior = set()
+        for j, op in enumerate(ops):
+            k = op.key()
+            got = run_op(shared, op)        # before the fresh run: nothing else happens between two operations of a session
+            if k not in fresh_memo:
+                fresh_memo[k] = run_op(Decoder(), op)
+            fresh = fresh_memo[k]
+            vname = (op.variant[0] if op.variant else 'valid') if op.kind != 'scan' else 'dmg%d' % sum(1 for d in op.case.dmg if d)
+            ctx.case({'session': si, 'op': j, 'kind': op.kind, 'data': op.data.hex()[:40], 'len': len(op.data), 'flags': op.flags(),
+                      'cont': op.cont, 'variant': vname, 'prior': sorted(prior)}, nontrivial=j >= 1,
+                     sample=si == 0 and j in (2, 3))
+            ctx.traces += 1
+            ctx.count('history:op:' + op.flags())
+            ctx.count('history:variant:' + vname)
+            ctx.count('history:outcome:' + got.out)
+            for t in prior:
+                ctx.count('history:after-' + t)
+            if op.kind == 'scan' and op.case.filt:
+                ctx.count('history:scan-with-filter')
+            if not got.same(fresh):
+                why = 'operation %d of a session on one Decoder (%s, %s%s) gives %s, the same operation on a fresh Decoder %s' % (
+                    j, op.flags(), vname, ', continue-on-error' if op.cont else '', got.brief(), fresh.brief())
+                hist = shrink_history(ops, j, fresh)
+                why += '; history needed: %s' % [h.flags() + ':' + ('ok' if run_op(Decoder(), h).out in ('ok', 'done') else 'failed') for h in hist]
+                ctx.violation('history: ' + why, history_replay(hist, op, got, fresh, why),
+                              signature={'stage': 'history', 'op': op.flags(), 'shared': got.out, 'fresh': fresh.out})
+                break       # the Decoder object is no longer in a defined state
+            if k not in judged:
+                judged.add(k)
+                judge_op(ctx, op, got, model.get(k))
+            # what later operations of this session come after
+            prior.add('lenient' if op.ignore else 'strict')
+            prior.add('info' if op.info_only else 'full')
+            prior.add('failed' if got.out not in ('ok', 'done') else 'succeeded')
+            prior.add(op.kind)
+            if op.kind == 'scan' and op.case.filt:
+                prior.add('filter')
+
+
+def judge_op(ctx, op, got, r):
+    """oracle and model for one operation whose observation `got` does not depend on the history"""
+    if op.kind == 'scan':
+        judge_scan(ctx, op.case, [b for b, _ in got.items], got.out, r)
+        return
+    why = process_oracle(op, got)
+    if why:
+        sig = process_signature(op, got, why)
+        ctx.violation('oracle: ' + why + (' [%s in %s]' % (sig['exc'], sig['where']) if 'exc' in sig else ''),
+                      history_replay([], op, got, got, why), signature=sig)
+        return
+    if r is None:
+        return
+    fam, consumed = model_of_process(r)
+    if fam != got.out or (fam == 'ok' and consumed != len(got.items[0][0])):
+        w = 'Decoder.process (%s, %s): model %s %s, implementation %s' % (op.flags(), op.variant, fam, consumed, got.brief())
+        ctx.violation('correspondence: ' + w, history_replay([], op, got, got, w),
+                      signature={'stage': 'correspondence', 'op': op.flags(), 'variant': op.variant[0] if op.variant else 'valid',
+                                 'impl': got.out, 'model': fam})
+
+
+# ---------------------------------------------------------------------------------------------
 # (C) command line
 def run_cli(ctx, drv, treq, rng):
     pool = [m for m in S.gen_messages(drv, rng, 20, needle_p=0.0) if len(m.b) <= 400]
@@ -476,12 +885,15 @@ def run(ctx):
     quick = ctx.tier == 'quick'
     import time
     t0 = time.time()
-    run_streams(ctx, drv, treq, ctx.rng('streams'), 16 if quick else 160)
+    pool, variants = run_streams(ctx, drv, treq, ctx.rng('streams'), 16 if quick else 160)
+    t1 = time.time()
+    run_histories(ctx, drv, treq, ctx.rng('history'), pool, variants, 240 if quick else 2400)
+    th = time.time() - t1
     t1 = time.time()
     run_truncation(ctx, drv, treq, ctx.rng('trunc'), 40 if quick else 400, 4 if quick else 30)
     t2 = time.time()
     run_cli(ctx, drv, treq, ctx.rng('cli'))
-    ctx.notes.append('wall: streams %.1fs, truncation %.1fs, cli %.1fs' % (t1 - t0, t2 - t1, time.time() - t2))
+    ctx.notes.append('wall: streams %.1fs, histories %.1fs, truncation %.1fs, cli %.1fs' % (t1 - th - t0, th, t2 - t1, time.time() - t2))
 
 
 def replay(ctx, path):
@@ -502,6 +914,40 @@ def replay(ctx, path):
             shutil.rmtree(tmp, ignore_errors=True)
         print('replay: pybufrkit %s -> %s' % (' '.join(rep['cli']), bad or 'library error reported without a traceback'))
         return
+    if 'probe' in rep:
+        from pybufrkit.decoder import Decoder
+        hist = [HOp.from_json(d) for d in rep['history']]
+        op = HOp.from_json(rep['probe'])
+        shared = Decoder()
+        for h in hist:
+            o = run_op(shared, h)
+            print('replay: history  %-28s %s -> %s' % (h.flags(), h.variant or (h.case and [d and d[0] for d in h.case.dmg]), o.brief()))
+        got = run_op(shared, op)
+        fresh = run_op(Decoder(), op)
+        print('replay: probe    %-28s %s%s' % (op.flags(), op.variant or (op.case and [d and d[0] for d in op.case.dmg]),
+                                              ', continue-on-error' if op.cont else ''))
+        print('        on the Decoder with that history:', got.brief())
+        print('        on a fresh Decoder:              ', fresh.brief())
+        if not got.same(fresh):
+            ctx.violation('history: the operation gives %s after the history, %s on a fresh Decoder' % (got.brief(), fresh.brief()),
+                          rep, signature={'stage': 'history', 'op': op.flags(), 'shared': got.out, 'fresh': fresh.out})
+            return
+        r = None
+        if op.kind != 'process-nosig':
+            r = drv.batch([treq, scan_model_req(op.case) if op.kind == 'scan' else S.scan_req(op.data, op.info_only, False, None, op.ignore)])[1]
+            print('        model:', r)
+        judge_op(ctx, op, got, r)
+        return
+    if 'message_hex' in rep and 'history' in rep:
+        from pybufrkit.decoder import Decoder
+        b = bytes.fromhex(rep['message_hex'])
+        r = truncation_message(treq, b, rep.get('label', 'replay'), 0)
+        for what, rep2, sig in r.get('violations', []):
+            print('replay:', what)
+            ctx.violation(what, rep2, signature=sig)
+        if not r.get('violations'):
+            print('replay: all prefixes, then the complete message on the same Decoder: as on a fresh one')
+        return
     if 'message_hex' in rep:
         from pybufrkit.decoder import Decoder
         b = bytes.fromhex(rep['message_hex'])
@@ -516,16 +962,11 @@ def replay(ctx, path):
             fam, m = decode_family(Decoder(), b + t, rep.get('info_only', False))
             print('replay: with trailing bytes:', fam, m and len(m.serialized_bytes), 'of', len(b))
         return
-    c = SCase()
-    c.s = bytes.fromhex(rep['stream_hex'])
-    c.offs = [o for o, _ in rep['pieces']]
-    c.cur = [c.s[o:o + n] for o, n in rep['pieces']]
-    c.dmg = [tuple(d) if d else None for d in rep['damage']]
-    c.info_only, c.cont, c.idx = rep['info_only'], rep['continue_on_error'], rep.get('case_index', 0)
-    items, out = S.impl_scan(c.s, info_only=c.info_only, continue_on_error=c.cont, limit=len(c.cur) + 4)
-    r = drv.batch([treq, S.scan_req(c.s, c.info_only, c.cont)])[1]
+    c = scase_from_replay(rep)
+    items, out = scan_fresh(c, len(c.cur) + 4)
+    r = drv.batch([treq, scan_model_req(c)])[1]
     why, counters = oracle(c, items, out)
-    print('replay: damage', c.dmg)
+    print('replay: damage', c.dmg, '(ignore_value_expectation=%s, filter=%s)' % (c.ignore, c.filt[0] if c.filt else None))
     print('        implementation', out, [len(x) for x in items])
     print('        model', r['outcome'], r['items'])
     print('        oracle:', why or 'holds', counters)
